@@ -564,7 +564,7 @@ Qed.
 
 Theorem step_inv : forall s l s' ev, Inv s -> step s l = Some (s', ev) -> Inv s'.
 Proof.
-  intros s l s' ev [I [U W]] Hst. unfold Inv. destruct l as [c|c m|t|t|t|c|c|c| | | | ]; cbn [step] in Hst.
+  intros s l s' ev [I [U W]] Hst. unfold Inv. destruct l as [c|c m|t|t|t|c|c|c| | | | |c m]; cbn [step] in Hst.
   - (* LRegister *)
     destruct (in_unreg s c) eqn:Hu; [discriminate|]. destruct (lmem c (s_cl s)) eqn:Hc; injection Hst as <- <-; auto.
     now apply register_inv.
@@ -613,6 +613,10 @@ Proof.
   - (* LShutEnd *)
     destruct (s_sd s) as [| | |[|t r] [|]|] eqn:Hsd; try discriminate.
     destruct (shut_end s) as [s1 e1] eqn:He. injection Hst as <- <-. eapply shut_end_inv; eauto.
+  - (* LSubmitStale *)
+    destruct (in_unreg s c) eqn:Hu; [discriminate|]. destruct (lmem c (s_cl s)); [discriminate|].
+    destruct (s_sd s); try discriminate.
+    destruct (pool_send s c m) as [s1 r] eqn:Hs. injection Hst as <- <-. eapply send_inv; eauto.
 Qed.
 
 Inductive reach (n : nat) : st -> list event -> Prop :=
@@ -637,7 +641,7 @@ Proof. intros s c. unfold notify. destruct (tget c (s_unreg s)) as [[|]|]; refle
 
 Theorem step_bad : forall s l s' ev, Inv s -> s_bad s = false -> step s l = Some (s', ev) -> s_bad s' = false.
 Proof.
-  intros s l s' ev [I [U W]] Hb Hst. destruct l as [c|c m|t|t|t|c|c|c| | | | ]; cbn [step] in Hst.
+  intros s l s' ev [I [U W]] Hb Hst. destruct l as [c|c m|t|t|t|c|c|c| | | | |c m]; cbn [step] in Hst.
   - destruct (in_unreg s c); [discriminate|]. destruct (lmem c (s_cl s)); injection Hst as <- <-; auto.
   - destruct (in_unreg s c); [discriminate|]. destruct (lmem c (s_cl s)); [|injection Hst as <- <-; auto].
     destruct (pool_send s c m) as [s1 r] eqn:Hs. injection Hst as <- <-. unfold pool_send in Hs.
@@ -676,6 +680,10 @@ Proof.
   - destruct (s_sd s) as [| | |[|t r] [|]|]; try discriminate.
     destruct (shut_end s) as [s1 e1] eqn:He. injection Hst as <- <-.
     destruct (shut_end_fields s) as [_ [_ [_ [_ [_ [_ [_ [_ [_ [_ [_ [A _]]]]]]]]]]]]. rewrite He in A. cbn [fst] in A. congruence.
+  - destruct (in_unreg s c); [discriminate|]. destruct (lmem c (s_cl s)); [discriminate|]. destruct (s_sd s); try discriminate.
+    destruct (pool_send s c m) as [s1 r] eqn:Hs. injection Hst as <- <-. unfold pool_send in Hs.
+    destruct (tget c (s_reg s)) as [[|]|] eqn:Hr; [injection Hs as <- <-; auto| |injection Hs as <- <-; auto].
+    destruct (_ =? 1); injection Hs as <- <-; auto. apply dispatch_bad; auto. now apply send_pend_inv.
 Qed.
 
 Theorem reach_bad : forall n s tr, reach n s tr -> s_bad s = false.
